@@ -28,6 +28,33 @@ let res_limbs = function Ok l -> hex_of_limbs l | Err e -> err_s e
 let res_pair = function Ok (q, r) -> hex_of_limbs q ^ " " ^ hex_of_limbs r | Err e -> err_s e
 let res_str = function Ok s -> str_of_codes s | Err e -> err_s e
 
+(* Lua values: i:<int>  b:<bint>  s:<hexbytes|->  f:<m>:<e>[:<hexfloat>] | f:inf | f:-inf | f:nan *)
+let lnum_of_token (t : string) : lnum =
+  match String.split_on_char ':' t with
+  | "i" :: v :: _ -> NInt (z_of_hex v)
+  | "f" :: "inf" :: _ -> NFlt (FInf false)
+  | "f" :: "-inf" :: _ -> NFlt (FInf true)
+  | "f" :: "nan" :: _ -> NFlt FNan
+  | "f" :: m :: e :: _ -> NFlt (FFin (z_of_hex m, z_of_hex e))
+  | _ -> failwith ("bad number token " ^ t)
+
+let lval_of_token (t : string) : lval =
+  match String.split_on_char ':' t with
+  | "b" :: v :: _ -> LBint (limbs_of_hex v)
+  | "s" :: v :: _ -> LStr (if v = "-" then [] else zlist_of_hexbytes v)
+  | _ -> LNum (lnum_of_token t)
+
+let lnum_s = function
+  | NInt i -> "i " ^ hex_of_z i
+  | NFlt (FFin (m, e)) -> "flt:" ^ hex_of_z m ^ ":" ^ hex_of_z e
+  | NFlt (FInf false) -> "flt:inf"
+  | NFlt (FInf true) -> "flt:-inf"
+  | NFlt FNan -> "flt:nan"
+
+let mres_s = function MBint x -> hex_of_limbs x | MFallback _ -> "fallback"
+let cres_s = function COk x -> hex_of_limbs x | CAssert -> "!err assert"
+let optb_s = function Some l -> hex_of_limbs l | None -> "nil"
+
 let () =
   iter_lines (fun line ->
     match split_ws line with
@@ -102,6 +129,25 @@ let () =
            | "tohexint" -> res_str (tohexint (a 0) (optz 1))
            | "tobinint" -> res_str (tobinint (a 0) (optz 1))
            | "todecint" -> res_str (todecint (a 0))
+           | "tobint" -> optb_s (tobint (lval_of_token (List.nth args 0)))
+           | "new" -> cres_s (bnew (lval_of_token (List.nth args 0)))
+           | "madd" -> mres_s (madd (lval_of_token (List.nth args 0)) (lval_of_token (List.nth args 1)))
+           | "msub" -> mres_s (msub (lval_of_token (List.nth args 0)) (lval_of_token (List.nth args 1)))
+           | "mmul" -> mres_s (mmul (lval_of_token (List.nth args 0)) (lval_of_token (List.nth args 1)))
+           | "mlt" -> (match mlt (lval_of_token (List.nth args 0)) (lval_of_token (List.nth args 1)) with Some b -> b2s b | None -> "none")
+           | "mle" -> (match mle (lval_of_token (List.nth args 0)) (lval_of_token (List.nth args 1)) with Some b -> b2s b | None -> "none")
+           | "meq" -> b2s (meq (lval_of_token (List.nth args 0)) (lval_of_token (List.nth args 1)))
+           | "tonumber" -> lnum_s (bint_tonumber (a 0))
+           | "trunc" -> optb_s (btrunc (lval_of_token (List.nth args 0)))
+           | "floor" -> cres_s (bfloor (lval_of_token (List.nth args 0)))
+           | "ceil" -> cres_s (bceil (lval_of_token (List.nth args 0)))
+           | "fromle" -> hex_of_limbs (bfromle (bytes 0))
+           | "frombe" -> hex_of_limbs (bfrombe (bytes 0))
+           | "tole" -> (match btole (a 0) (flag 1) with [] -> "-" | l -> hexbytes_of_zlist l)
+           | "tobe" -> (match btobe (a 0) (flag 1) with [] -> "-" | l -> hexbytes_of_zlist l)
+           | "todecsci" -> res_str (todecsci_int (a 0) (flag 1))
+           | "demotefloat" -> lnum_s (demotefloat (lnum_of_token (List.nth args 0)))
+           | "canbeintegral" -> b2s (canbeintegral (lnum_of_token (List.nth args 0)))
            | _ -> "?unknown-op")
         with e -> "!exn " ^ Printexc.to_string e
       in
